@@ -34,6 +34,13 @@ func (a *Activation) call(st *State, ins *ssa.Call, cc *ssa.CallCommon, pos toke
 		if a.ifaceContractCall(st, cc, recv, args, pos, setRes, resT) {
 			return
 		}
+		if cc.Method.Name() == "Error" && len(args) == 0 && types.Identical(cc.Value.Type(), types.Universe.Lookup("error").Type()) {
+			// err.Error(): rendering an error value is taken to be pure (unknown text, no
+			// effect on the heap or on ghost state)
+			g.trusted["(error).Error is pure: it returns some text and changes neither memory nor ghost state"] = true
+			setRes(a.havocValue(st, resT, "errtext"))
+			return
+		}
 		a.havocCall(st, cc.Method.FullName(), append([]Val{recv}, args...), resT, setRes, true)
 		return
 	}
